@@ -1,9 +1,6 @@
 (* C18 proofs, part 1b: the hit finder over all records and with broadcast scalar thresholds. *)
 From SV Require Import Model.Hits Model.Reduction Spec.HitsSpec Proof.HitsProof.
 
-Definition rec_ok (amp hon : list Z) (r : rec) : Prop :=
-  0 <= r_ch r < zlen amp /\ r_ch r < zlen hon /\
-  0 <= r_length r <= zlen (r_data r) /\ 0 < threshold amp hon r.
 
 Lemma zlen_firstnZ {A} n (l : list A) : 0 <= n <= zlen l -> zlen (firstnZ n l) = n.
 Proof. unfold zlen, firstnZ. intros H. rewrite firstn_length. lia. Qed.
@@ -100,3 +97,9 @@ Proof.
     exists hs. split; [|split; auto].
     rewrite find_hits_scalar_unfold by auto. exact Hrun.
 Qed.
+
+Lemma find_hits_wrapper rs amp hon :
+  rs <> [] ->
+  let n := n_channels_of rs amp hon in
+  find_hits rs amp hon = find_hits_core (targ_array amp n) (targ_array hon n) rs.
+Proof. destruct rs; [congruence|]. intros _. destruct amp, hon; reflexivity. Qed.
